@@ -22,7 +22,7 @@ CLAIMED = {
              "independent of what the mutator modifies or has a registered transport lemma (C04/C07). Witness "
              "theorems show staleness without verify-first or with a dependent key (five such defects were found "
              "and repaired). Tied to the code by differential histories: ~55 properties + ray / nearest answers "
-             "compared with a freshly built mesh after every step. The generated mutator table is also validated at run time: after every cache-keeping library call the set of cached keys that survived is compared with what the table allows that mutator to keep. The histories are also run on a never-read twin: the data a mutator leaves behind must not depend on what was read before it (recorded finding: merge_vertices consults cached vertex normals). Query structures (both ray engines, containment, nearest point) are warmed by one query, the arrays edited, and asked again with nothing read in between. Anisotropic matrices with entries far below one are a matrix class of their own (defect found and repaired: 50f8597).",
+             "compared with a freshly built mesh after every step. The generated mutator table is also validated at run time: after every cache-keeping library call the set of cached keys that survived is compared with what the table allows that mutator to keep. The histories are also run on a never-read twin: the data a mutator leaves behind must not depend on what was read before it (recorded finding: merge_vertices consults cached vertex normals). Query structures (both ray engines, containment, nearest point) are warmed by one query, the arrays edited, and asked again with nothing read in between. Anisotropic matrices with entries far below one are a matrix class of their own (defect found and repaired: 50f8597). C01_reads_never_change_data (data after a history = data after the history without its reads) with the cache-consulting mutator as witness of the finding.",
         note="Trusted: Lean kernel (+propext/Classical.choice/Quot.sound), hash injectivity, ast read sets as an "
              "over-approximation of dependencies, the registered transport pairs (normals under similarity: "
              "C04_similarity_normals; vertex-normal weights under similarity assumed). The cached functions "
@@ -143,7 +143,7 @@ CLAIMED = {
              "index/inverse reconstruct the input with first-occurrence representatives (C06_unique, "
              "C06_unique_rows). The model is tied to the code by a differential run (bit-exact hashes, groups as "
              "sets, indices, blocks) on boundary-magnitude arrays; blocks/merge_runs/bincount/boolean_rows are "
-             "modelled and compared, not yet proved. Since registration: theorems for merge_runs, group_min, boolean_rows and for blocks without wrap-around (= specification; the runs tile the index range; a block is exactly a maximal run passing the filter); the two known wrap-around defects are stated as witnesses. Generated obligation C06_packing_constants_of_source (column limit, precision, threshold, offset, shift and both strict guard comparisons of hashable_rows recovered by ast); C06_blocks_wrap_unfiltered_partial. Tolerances given as powers of ten (decimal_to_digits for 1e-1..1e-15, float rows a tolerance apart with digits=None) are judged by the oracle.",
+             "modelled and compared, not yet proved. Since registration: theorems for merge_runs, group_min, boolean_rows and for blocks without wrap-around (= specification; the runs tile the index range; a block is exactly a maximal run passing the filter); the two known wrap-around defects are stated as witnesses. Generated obligation C06_packing_constants_of_source (column limit, precision, threshold, offset, shift and both strict guard comparisons of hashable_rows recovered by ast); C06_blocks_wrap_unfiltered_partial. Tolerances given as powers of ten (decimal_to_digits for 1e-1..1e-15, float rows a tolerance apart with digits=None) are judged by the oracle. C06_unique_value_in_row and C06_unique_bincount complete the helpers.",
         note="Trusted: Lean kernel (+propext/Classical.choice/Quot.sound where reported), the Python harness; "
              "np.argsort/np.unique modelled as a stable sort; float quantisation only via correspondence. "
              "Known findings: two blocks(wrap=True) defects.",
@@ -158,7 +158,7 @@ CLAIMED = {
              "representative, keeps face order/data and leaves no two kept vertices with one key; append / "
              "concatenate / submesh / split+concatenate (any partition) preserve the triangle list / multiset "
              "with attached data; unique_faces marks first occurrences. All for meshes of any size. Tied to "
-             "the code by a differential run (vertex ids, face ids, positions, colours compared element-wise). Generated obligation C07_masking_slices_every_payload: the payloads update_faces / update_vertices slice with the mask, read from the source by ast on every run, are the ones the model carries.",
+             "the code by a differential run (vertex ids, face ids, positions, colours compared element-wise). Generated obligation C07_masking_slices_every_payload: the payloads update_faces / update_vertices slice with the mask, read from the source by ast on every run, are the ones the model carries. C07_update_vertices_int (index masks in any order with an explicit inverse), C07_index_mask_order_witness.",
         note="Trusted: Lean kernel (+propext/Classical.choice/Quot.sound), the Python harness; merge keys are exact "
              "on the generated coordinates; visual classes' caching, nondegenerate_faces (geometric), "
              "remove_infinite_values and process() are checked by the property oracle only. update_vertices with "
@@ -278,7 +278,7 @@ CLAIMED = {
              "every point; an accepted minimality certificate (support points + convex weights) proves that "
              "every enclosing ball has radius >= r - eps. Inputs: gaussian, lattice, clustered (spread 1e-2 .. "
              "1e-6), flat, scaled, far, spherical, cylindrical, elongated clouds and non-convex meshes, as "
-             "PointCloud or mesh, moved rigidly; option combinations (normal=, ordered, angle_digits). Planar oriented bounds are judged by the same verified box checker (embedded in z = 0). Meshes that pass the tolerance test is_convex without being their own hull (a dent of a few millionths, a vertex no face uses) go through the verified hull checker.",
+             "PointCloud or mesh, moved rigidly; option combinations (normal=, ordered, angle_digits). Planar oriented bounds are judged by the same verified box checker (embedded in z = 0). Meshes that pass the tolerance test is_convex without being their own hull (a dent of a few millionths, a vertex no face uses) go through the verified hull checker. Two findings recorded: convex_hull drops the zero-area simplices qhull returns for small coplanar inputs far from the origin and leaves the hull open (C16_dropping_degenerate_simplex_opens_witness shows the mechanism), and oriented_bounds(normal=) then raises.",
         note="Trusted: Lean kernel (+propext/Classical.choice/Quot.sound); qhull / scipy are certified per output, "
              "not modelled; the certificate search (nnls) and the enumeration of support sets used to separate "
              "'not minimal' from 'certificate not found' are harness code; 2D oriented bounds are judged by a Python oracle only (no theorem). "
@@ -301,7 +301,7 @@ CLAIMED = {
              "splices and random bytes over 17 formats x load / load_mesh / load_scene / load_path x file "
              "object / path / path with explicit file_type, each in a forked worker under RLIMIT_AS and a "
              "timer, with the open-file table compared while the result or exception is alive; the Lean "
-             "decoders' accept / reject is compared with the loaders'.",
+             "decoders' accept / reject is compared with the loaders'. C20_glb_strided_in_bounds / C20_glb_strided_alloc: with the two guards of the byteStride branch of _read_buffers every byte of the as_strided view lies inside the data and what is copied is bounded by the bytes present; C20_glb_strided_of_source reads the guards, their position, shape, strides and byte window from the source by ast; the guards of every interleaved accessor of the corrupted files are evaluated by the model and compared with the loader.",
         note="Trusted: Lean kernel (+propext/Classical.choice/Quot.sound); the skeleton translator (PURE call "
              "list, scenario table); time / memory / native crashes are observed per explored input only "
              "(partial). Two defects repaired (load_path leak, STL count overflow).",
